@@ -180,6 +180,17 @@ class HiFiber:
 
             elif isinstance(node, OtherNode):
                 if node.get_type() == "Body":
+                    # Make sure that the loop nest reached the bottom of the
+                    # output tensor
+                    output = self.program.get_equation().get_output()
+                    if output.peek() is not None:
+                        raise ValueError(
+                            "Cannot project into the output tensor. Rank " +
+                            output.peek_clean() +
+                            " of " +
+                            output.root_name() +
+                            " is not iterated by the loop order")
+
                     code.add(self.eqn.make_update())
                     code.add(self.graphics.make_body())
 
